@@ -1,9 +1,13 @@
-/- GENERATED on every run by harness (py2lean.py) from src/py_gql/validation/rules/overlapping_fields_can_be_merged.py (_types_conflict, _same_arguments, _same_value).
+/- GENERATED on every run by harness (py2lean.py) from src/py_gql/validation/rules/overlapping_fields_can_be_merged.py (_types_conflict, _same_arguments, _same_value, _permutations).
    Do not edit: the check rewrites this file from /repo's working tree. -/
 /- Translated by py2lean.Tr. Constructs used and how they were read:
      * all/any(generator) -> List.all / List.any
+     * enumerate
+     * for -> structural recursion on the sequence
+     * generator: yield e -> append to the accumulator that is returned (the generator run to its end)
      * isinstance(t, WrappingType) -> t.isWrapping; isinstance(t, GraphQLLeafType) -> the parameter isLeafType
      * self-recursion -> the parameter rec_types_conflict (step functional; the equation below closes the knot)
+     * slice
      * sorted(key=lambda) -> Py.sortedBy (stable insertion sort)
      * type(a) != type(b) -> !Ty.sameCtor a b; t.type -> t.inner; a != b on types -> by-name inequality of type expressions
      * zip
@@ -95,5 +99,40 @@ def _same_value {V K P W : Type} [BEq K] [BEq P] [BEq W] (class_of : V → K) (i
       (.ok ((print_ast value_1) == (print_ast value_2)))
     else
       (.ok ((value_of value_1) == (value_of value_2)))))
+
+/-
+def _permutations(lst: Sequence[T]) -> Iterator[Tuple[T, T]]:
+    """
+    Symmetric permutations of a list
+
+    >>> list(_permutations([1, 2, 3]))
+    [(1, 2), (1, 3), (2, 3)]
+    """
+    for i, item_1 in enumerate(lst):
+        for item_2 in lst[i + 1 :]:
+            yield item_1, item_2
+-/
+def _permutations.loop2 {T : Type} (lst : List T) (i : Int) (item_1 : T) : (List T) → (List (T × T)) → Py.Flow String ((List (T × T))) (List (T × T))
+  | [], yield__ => .fall yield__
+  | item_2 :: rest__, yield__ =>
+    (let yield__ := (yield__ ++ [(item_1, item_2)])
+     (_permutations.loop2 lst i item_1 rest__ yield__))
+
+def _permutations.loop1 {T : Type} (lst : List T) : (List (Int × T)) → (List (T × T)) → Py.Flow String ((List (T × T))) (List (T × T))
+  | [], yield__ => .fall yield__
+  | (i, item_1) :: rest__, yield__ =>
+    (match (_permutations.loop2 lst i item_1 (Py.sliceFrom lst (i + (1 : Int))) yield__) with
+      | .ret r__ => (.ret r__)
+      | .raise e__ => (.raise e__)
+      | .fall yield__ =>
+        (_permutations.loop1 lst rest__ yield__))
+
+def _permutations {T : Type} (lst : List T) : Except String (List (T × T)) :=
+  (let yield__ : List (T × T) := []
+   (match (_permutations.loop1 lst (Py.enumerate lst) yield__) with
+     | .ret r__ => (.ok r__)
+     | .raise e__ => (.error e__)
+     | .fall yield__ =>
+       (.ok yield__)))
 
 end PyGql.Generated.Tr
